@@ -96,6 +96,9 @@ M = [
     ("m63", "C09", "src/streaming/wal.rs", "            .iter()\n            .filter_map(|name| parse_wal_sequence(name))\n            .max()\n            .unwrap_or(0);", "            .last()\n            .and_then(|name| parse_wal_sequence(name))\n            .unwrap_or(0);", r"R09\.8"),
     ("m64", "C14", "src/replication/lattice.rs", "    /// Next sequence number for each replica\n    next_sequence: HashMap<ReplicaId, u64>,", "    /// Next sequence number for each replica\n    #[serde(skip)]\n    next_sequence: HashMap<ReplicaId, u64>,", r"R14\.8"),
     ("m65", "C14", "src/streaming/checkpoint.rs", "        let key_count = state.len() as u64;\n        let data = CheckpointData { state };", "        let mut state = state;\n        state.retain(|_, v| !v.is_tombstone());\n        let key_count = state.len() as u64;\n        let data = CheckpointData { state };", r"R14\.9"),
+    ("m66", "C15", "src/production/connection_optimized.rs", "            RespValue::Array(None) => {\n                buf.extend_from_slice(b\"*-1\\r\\n\");\n            }", "            RespValue::Array(None) => {\n                buf.extend_from_slice(b\"$-1\\r\\n\");\n            }", r"R15\.10"),
+    ("m67", "C15", "src/redis/resp_optimized.rs", "            let len = len as usize;\n            let start = pos + 2;", "            if len == 0 {\n                return Ok((RespValueZeroCopy::BulkString(Some(Bytes::new())), pos + 4));\n            }\n            let len = len as usize;\n            let start = pos + 2;", r"R15\.5"),
+    ("m68", "C02", "src/production/sharded_actor.rs", "            shard_batches[shard_idx].push((idx, key.clone()));", "            if idx % 1024 == 1023 {\n                continue;\n            }\n            shard_batches[shard_idx].push((idx, key.clone()));", r"R02\.7"),
 ]
 
 
